@@ -286,7 +286,10 @@ def gen_req(rng):
     scheme = rng.choice(['http', 'https'])
     host = rng.choice(['example.com', 'api.example.org', '127.0.0.1', '[::1]', 'localhost'])
     port = rng.choice([80, 443, 8080])
-    no_host = rng.random() < 0.15
+    # the documented spellings of the protocol version; '1' and '1.0' denote HTTP/1.0 (no Host header),
+    # '2' and '2.0' HTTP/2
+    http_version = rng.choice(['1.1', '1.1', '1.1', '1.1', '2', '2.0', '1.0', '1'])
+    no_host = http_version in ('1', '1.0')
     if no_host and host.startswith('['):
         # falcon.testing uses `host` verbatim as SERVER_NAME; a server would drop the brackets
         host = 'localhost'
@@ -294,7 +297,12 @@ def gen_req(rng):
             'scheme': scheme, 'host': host, 'port': port, 'root_path': rng.choice(['', '', '/app']),
             'remote': rng.choice(ADDRS),        # the peer is drawn from the same pool as the hops
             'style': rng.choice(['qs', 'inline', 'inline', 'params']),
-            'no_host': no_host,
+            'no_host': no_host, 'http_version': http_version,
+            # how the same request is spelled for falcon.testing
+            'spell': {'port_none': rng.random() < 0.5, 'headers_dict': rng.random() < 0.5,
+                      'body_str': rng.random() < 0.5, 'json_kw': rng.random() < 0.5,
+                      'ct_kw': rng.random() < 0.5, 'cookies_kw': rng.random() < 0.5,
+                      'root_none': rng.random() < 0.5, 'remote_default': False},
             'chunks': rng.randint(1, 3)}
 
 
@@ -338,7 +346,7 @@ def drive_wsgi(app, r):
     raw = urllib.parse.unquote_to_bytes(r['path'])
     env = {'REQUEST_METHOD': r['method'], 'PATH_INFO': raw.decode('latin-1'), 'QUERY_STRING': r['query'],
            'SCRIPT_NAME': r['root_path'], 'SERVER_NAME': r['host'].strip('[]'), 'SERVER_PORT': str(r['port']),
-           'SERVER_PROTOCOL': 'HTTP/1.0' if r.get('no_host') else 'HTTP/1.1', 'wsgi.url_scheme': r['scheme'], 'wsgi.input': io.BytesIO(r['body']),
+           'SERVER_PROTOCOL': 'HTTP/' + canon_version(r), 'wsgi.url_scheme': r['scheme'], 'wsgi.input': io.BytesIO(r['body']),
            'wsgi.errors': io.StringIO(), 'REMOTE_ADDR': r['remote'], 'wsgi.version': (1, 0),
            'wsgi.multithread': False, 'wsgi.multiprocess': False, 'wsgi.run_once': False}
     for n, v in full_headers(r):
@@ -360,7 +368,7 @@ def drive_wsgi(app, r):
 def drive_asgi(app, r):
     raw = urllib.parse.unquote_to_bytes(r['path'])
     scope = {'type': 'http', 'asgi': {'version': '3.0', 'spec_version': '2.1'},
-             'http_version': '1.0' if r.get('no_host') else '1.1',
+             'http_version': canon_version(r),
              'method': r['method'], 'scheme': r['scheme'], 'path': raw.decode('utf-8', 'replace'),
              'raw_path': r['path'].encode('ascii'), 'query_string': r['query'].encode('latin-1'),
              'root_path': r['root_path'],
@@ -420,15 +428,86 @@ def testing_target(r):
     return dict(path=r['path'], query_string=r['query'])
 
 
+def canon_version(r):
+    v = r.get('http_version', '1.1')
+    return {'1': '1.0', '2.0': '2'}.get(v, v)
+
+
+def simple_cookies(value):
+    """a Cookie header that `cookies=` can express verbatim"""
+    out = {}
+    for part in value.split('; '):
+        k, eq, v = part.partition('=')
+        if not eq or not k.isalnum() or not v.isalnum() or k in out:
+            return None
+        out[k] = v
+    return out
+
+
+def testing_kwargs(r):
+    """The same request, spelled with the documented alternatives of the simulate_* options."""
+    import json as json_mod
+    sp = r.get('spell', {})
+    default_port = 443 if r['scheme'] == 'https' else 80
+    hs = list(r['headers']) + [('User-Agent', UA)]
+    kw = dict(host=r['host'], protocol=r['scheme'], remote_addr=r['remote'], wsgierrors=io.StringIO(),
+              http_version=r.get('http_version', '1.1'))
+    kw['port'] = None if (sp.get('port_none') and r['port'] == default_port) else r['port']
+    if r['root_path'] or not sp.get('root_none'):
+        kw['root_path'] = r['root_path']            # '' and None both denote no root path
+    body = r['body'] or None
+    names = [n.lower() for n, _ in hs]
+    unique = len(set(names)) == len(names)
+    cts = [(n, v) for n, v in hs if n.lower() == 'content-type']
+    # json= : the body is the serialization of the object, Content-Type is application/json
+    if body and sp.get('json_kw') and unique and len(cts) == 1 and cts[0][1] == 'application/json':
+        try:
+            obj = json_mod.loads(body.decode('utf-8'))
+            if json_mod.dumps(obj, ensure_ascii=False).encode() == body:
+                hs = [h for h in hs if h[0].lower() != 'content-type']
+                kw['json'] = obj
+                body = None
+        except ValueError:
+            pass
+    # content_type= instead of a Content-Type header (it is added last, like the header we remove)
+    if 'json' not in kw and sp.get('ct_kw') and unique and len(cts) == 1:
+        hs = [h for h in hs if h[0].lower() != 'content-type']
+        kw['content_type'] = cts[0][1]
+    # cookies= instead of a Cookie header (only when no explicit Cookie header remains)
+    cks = [(n, v) for n, v in hs if n.lower() == 'cookie']
+    if sp.get('cookies_kw') and len(cks) == 1 and r['method'] != 'OPTIONS':
+        c = simple_cookies(cks[0][1])
+        if c is not None:
+            hs = [h for h in hs if h[0].lower() != 'cookie']
+            kw['cookies'] = c
+    if body is not None and sp.get('body_str'):
+        try:
+            body = body.decode('utf-8')            # a str body denotes its UTF-8 bytes
+        except UnicodeDecodeError:
+            pass
+    if body is not None:
+        kw['body'] = body
+    kw['headers'] = dict(hs) if (sp.get('headers_dict') and len({n.lower() for n, _ in hs}) == len(hs)) else hs
+    kw.update(testing_target(r))
+    for k in ('json', 'content_type', 'cookies'):
+        if k in kw:
+            SPELL_COUNTS[k] = SPELL_COUNTS.get(k, 0) + 1
+    SPELL_COUNTS['http_version=' + kw['http_version']] = SPELL_COUNTS.get('http_version=' + kw['http_version'], 0) + 1
+    if kw['port'] is None:
+        SPELL_COUNTS['port=None'] = SPELL_COUNTS.get('port=None', 0) + 1
+    if isinstance(kw['headers'], dict):
+        SPELL_COUNTS['headers=dict'] = SPELL_COUNTS.get('headers=dict', 0) + 1
+    if isinstance(kw.get('body'), str):
+        SPELL_COUNTS['body=str'] = SPELL_COUNTS.get('body=str', 0) + 1
+    return kw
+
+
+SPELL_COUNTS = {}
+
+
 def drive_testing(testing, app, r):
     cl = testing.TestClient(app)
-    hs = list(r['headers']) + [('User-Agent', UA)]
-    kw = dict(headers=hs, body=r['body'] or None,
-              host=r['host'], port=r['port'], protocol=r['scheme'], remote_addr=r['remote'],
-              root_path=r['root_path'] or None, wsgierrors=io.StringIO(),
-              http_version='1.0' if r.get('no_host') else '1.1')
-    kw.update(testing_target(r))
-    res = cl.simulate_request(r['method'], **kw)
+    res = cl.simulate_request(r['method'], **testing_kwargs(r))
     return norm_result(res.status, list(res.headers.items()), res.content,
                        {k: c.value for k, c in res.cookies.items()})
 
@@ -822,6 +901,9 @@ def main(ctx):
     if disagreements:
         ctx.violation('correspondence-broken', dict(disagreements[0], broken='C06.views_corr'),
                       found_input=any(v['found_input'] for v in ctx.violations), key='corr')
+    for k, v in SPELL_COUNTS.items():
+        ctx.count('testing-' + k, v)
+    probe_invalid_versions(ctx, falcon, testing, apps)
     probe_non_ascii_query(ctx, falcon)
     ctx.sample({'request': req_json(meta[0][0]), 'digest_path': meta[0][2] and meta[0][2]['path']})
 
@@ -858,6 +940,25 @@ def compare(dw, do, rw, ro):
     if rw['body'] != ro['body'] and not diffs:
         diffs.append(('resp.body', rw['body'][:200], ro['body'][:200]))
     return diffs
+
+
+def probe_invalid_versions(ctx, falcon, testing, apps):
+    """Undocumented protocol versions are refused by both simulators alike."""
+    wapp, aapp = next(iter(apps.values()))
+    for v in ('3', '0.9', 'HTTP/1.1', ''):
+        got = []
+        for app in (wapp, aapp):
+            try:
+                testing.simulate_get(app, '/', http_version=v)
+                got.append('ok')
+            except ValueError:
+                got.append('ValueError')
+            except Exception as e:  # noqa: BLE001
+                got.append(type(e).__name__)
+        if got[0] != got[1]:
+            ctx.violation('stacks-or-drivers-disagree',
+                          {'what': 'falcon.testing treats http_version=%r differently on WSGI and ASGI' % v,
+                           'pair': ['wsgi-testing', 'asgi-testing'], 'differences': got}, key='version-' + v)
 
 
 def probe_non_ascii_query(ctx, falcon):
